@@ -6,6 +6,7 @@ import (
 	"fmt"
 	"go/token"
 	"go/types"
+	"math"
 	"strings"
 
 	"golang.org/x/tools/go/ssa"
@@ -1955,7 +1956,48 @@ func ruleI14(c *Ctx) {
 				break
 			}
 			top := fnName(outermost(fn))
+			// the bounds must also be the right ones: at the first value beyond each end of the target
+			// type (2^63 for int64 - which is what float64(math.MaxInt64) rounds to -, the float just
+			// below -2^63, NaN) the conversion must be unreachable
+			boundary := ""
+			if lower && upper {
+				bits := int(c.P.sizes().Sizeof(db)) * 8
+				var reps []float64
+				var names []string
+				if db.Info()&types.IsUnsigned != 0 {
+					reps = []float64{math.Ldexp(1, bits), -1, math.NaN()}
+					names = []string{fmt.Sprintf("2^%d", bits), "-1", "NaN"}
+				} else {
+					lo := -math.Ldexp(1, bits-1) - 1
+					if bits == 64 {
+						lo = math.Nextafter(-math.Ldexp(1, 63), math.Inf(-1))
+					}
+					reps = []float64{math.Ldexp(1, bits-1), lo, math.NaN()}
+					names = []string{fmt.Sprintf("2^%d", bits-1), fmt.Sprintf("the float below -2^%d", bits-1), "NaN"}
+				}
+				for ri, r := range reps {
+					reach := true
+					for cand := range cands {
+						var def *ssa.BasicBlock
+						switch x := cand.(type) {
+						case *ssa.Parameter:
+							def = fn.Blocks[0]
+						case ssa.Instruction:
+							def = x.Block()
+						}
+						if def != nil && def.Parent() == fn && !floatRepReach(def, cv.Block(), cand, r) {
+							reach = false
+						}
+					}
+					if reach {
+						boundary = names[ri]
+						break
+					}
+				}
+			}
 			switch {
+			case lower && upper && boundary != "" && i14Exceptions[key] == "":
+				c.viol(key, pos, fmt.Sprintf("the range test before the conversion to %s lets %s through: Go's conversion of a value outside the target range yields an arbitrary integer (the most negative one on amd64) instead of an error", typeShort(cv.Type()), boundary))
 			case lower && upper:
 				c.ok(key, pos, "the float is bounded on both sides by dominating comparisons")
 			case i14Exceptions[key] != "":
